@@ -17,7 +17,8 @@ RULE = ("case = 1-5 watchers with priorities from a small range (ties "
         "daemon start plus 0-3 further sequences (start or restart without "
         "a name or with a glob matching several watchers; all or some watchers "
         "stopped in between, workers dying just before - noticed by a check or "
-        "not, respawn on or off), "
+        "not, respawn on or off; on-demand watchers woken together by a "
+        "client connection), "
         "with worker deaths injected at generated kernel-call boundaries of "
         "the sequence.  Non-trivial = >= 2 autostart watchers with different "
         "priorities, or a non-zero delay; distinct by hash of the case.")
@@ -84,11 +85,18 @@ def analyse(seq_name, spawns, wmap, order_expected, gwarm, viols):
 
 
 def execute(case):
+    od = set(case.get("ondemand") or [])
+    for i_, wc_ in enumerate(case["watchers"]):
+        if i_ in od:
+            wc_ = case["watchers"][i_] = dict(wc_, on_demand=True,
+                                              use_sockets=True)
     hc = {"watchers": [dict(wc) for wc in case["watchers"]],
           "arbiter": {"warmup_delay": case["global_warmup"]},
           "spawn_cost": case.get("spawn_cost", 1e-6),
           "periodic": case.get("periodic"),
           "ops": [], "tape": []}
+    if od:
+        hc["sockets"] = ["unix"]
     h = History(hc)
     w = h.world
     k = w.kernel
@@ -116,7 +124,8 @@ def execute(case):
         else:
             h.start()
             first = list(k.spawn_log)
-        auto = [n for n in wmap if wmap[n].get("autostart", True)]
+        auto = [n for n in wmap if wmap[n].get("autostart", True) and
+                not wmap[n].get("on_demand")]
         analyse('daemon-start', first, wmap, auto, gwarm, viols)
         for n in wmap:
             if not wmap[n].get("autostart", True):
@@ -133,6 +142,28 @@ def execute(case):
             if viols or w.dead or w.exited:
                 break
             kind = sq["kind"]
+            if kind == 'socket-event':
+                # a client connects: the stopped on-demand watchers are
+                # started together by the next periodic check
+                if not h.socks:
+                    continue
+                waiting_ = [n for n in wmap if wmap[n].get("on_demand") and
+                            wmap[n].get("autostart", True) and
+                            h.status(n) == 'stopped']
+                n0 = len(k.spawn_log)
+                h.connect(0)
+                w.check()
+                w.drain()
+                if len(waiting_) >= 2:
+                    classes.add('multi-watcher-sequence')
+                classes.add('socket-event-sequence')
+                # (the same check may also respawn workers of running
+                # watchers: those are not part of the sequence)
+                analyse('socket-event',
+                        [r_ for r_ in k.spawn_log[n0:]
+                         if r_["owner"] in waiting_], wmap, waiting_,
+                        gwarm, viols)
+                continue
             if sq.get("stop_first"):
                 w.request('stop', {"waiting": True})
                 w.drain()
@@ -220,7 +251,13 @@ def _strategy():
             if draw(st.integers(0, 3)) == 0:
                 wc["respawn"] = False
             ws.append(wc)
+        od = []
+        if draw(st.integers(0, 2)) == 0:
+            od = draw(st.lists(st.integers(0, nw - 1), min_size=1,
+                               max_size=3, unique=True))
         seqs = []
+        if od and draw(st.integers(0, 3)) > 0:
+            seqs.append({"kind": "socket-event"})
         for _ in range(draw(st.integers(0, 3))):
             sq = {"kind": draw(st.sampled_from(['start', 'restart',
                                                 'restart'])),
@@ -242,6 +279,7 @@ def _strategy():
                                                     0.045])),
                 "start_faults": draw(st.lists(fault, max_size=2)),
                 "periodic": draw(st.sampled_from([None, None, 0.2, 0.05])),
+                "ondemand": od,
                 "sequences": seqs}
     return case()
 
